@@ -1,6 +1,6 @@
 // region_driver.cxx — region trees, owners, positions (C12).
 // stdin: one script per line: operations separated by ';'
-//   unit | sub R | class R | union R | namespace R | closure R | enum R | block R | handler B |
+//   unit | sub R | class R | union R | namespace R | closure R | enum R | lenum R (unscoped) | block R | handler B |
 //   mapping R | lambda R | requires R | morphism R | where R | param M | enumerator E | base C | module | munit MOD
 //   R: region number (creation order; a class creates two: body, bases; a handler two: eh, body)
 //   B/M/E/C/MOD: number of the operation that created the block / mapping / enum / class / module
@@ -63,7 +63,7 @@ static void run_script(const std::string& script)
          else if (k == "union") { auto* c = lex.make_union(reg(a)); add_region(c->region(), &c->body); entity[static_cast<const ipr::Expr*>(c)] = me + ".0"; }
          else if (k == "namespace") { auto* c = lex.make_namespace(reg(a)); add_region(c->region(), &c->body); entity[static_cast<const ipr::Expr*>(c)] = me + ".0"; }
          else if (k == "closure") { auto* c = lex.make_closure(reg(a)); add_region(c->region(), &c->body); entity[static_cast<const ipr::Expr*>(c)] = me + ".0"; }
-         else if (k == "enum") { auto* c = lex.make_enum(reg(a), ipr::Enum::Kind::Scoped); rec.en = c; add_region(c->region(), nullptr); entity[static_cast<const ipr::Expr*>(c)] = me + ".0"; }
+         else if (k == "enum" or k == "lenum") { auto* c = lex.make_enum(reg(a), k == "enum" ? ipr::Enum::Kind::Scoped : ipr::Enum::Kind::Legacy); rec.en = c; add_region(c->region(), nullptr); entity[static_cast<const ipr::Expr*>(c)] = me + ".0"; }
          else if (k == "block") { auto* b = lex.make_block(reg(a)); rec.blk = b; add_region(b->region(), &b->lexical_region); entity[static_cast<const ipr::Expr*>(b)] = me + ".0"; }
          else if (k == "handler") {
             auto* b = ops.at(a).blk; if (!b) throw std::out_of_range("not a block");
@@ -97,7 +97,9 @@ static void run_script(const std::string& script)
             auto before = e->members().size();
             auto* x = e->add_member(lex.get_identifier(u8"k"));
             members.push_back("enumerator" + me + ":pos=" + std::to_string(size_t(x->position())) + ":want=" + std::to_string(before) +
-                              ":home_ok=" + std::to_string(&x->home_region() == &e->region()) + ":type_ok=" + std::to_string(physically_same(x->type(), *e)));
+                              ":home_ok=" + std::to_string(&x->home_region() == &e->region()) +
+                              ":lexical_ok=" + std::to_string(&static_cast<const ipr::Enumerator*>(x)->lexical_region() == &e->region()) +
+                              ":type_ok=" + std::to_string(physically_same(x->type(), *e)));
          }
          else if (k == "base") {
             auto* c = ops.at(a).cls; if (!c) throw std::out_of_range("not a class");
